@@ -303,27 +303,32 @@ Proof.
   induction (eval_list en items) as [|i t IH]; [reflexivity|]. cbn [map forallb]. rewrite IH. reflexivity.
 Qed.
 
-(* a range loop with integer bounds lo <= hi (not more than max_iter values) *)
+(* the loop variable of a range loop whose lower bound is an i64 value *)
+Lemma range_item_wrap : forall l k, - two63 <= l < two63 -> range_item l k = wrap64 (l + k).
+Proof.
+  intros l k H. unfold range_item. destruct (k =? 0) eqn:E; [|reflexivity].
+  apply Z.eqb_eq in E. subst k. rewrite Z.add_0_r. symmetry. apply wrap64_id. exact H.
+Qed.
+
+(* a range loop with integer bounds lo <= hi *)
 Lemma for_range_any : forall en q x lo hi body l h,
   eval en lo = VInt l -> eval en hi = VInt h ->
-  0 < wrap64 (h - l + 1) <= max_iter ->
+  0 < wrap64 (h - l + 1) ->
   eval en (EForRange QAny q x lo hi body)
-  = VBool (existsb (fun k => holds (bind x (VInt (wrap64 (l + k))) en) body) (zseq (wrap64 (h - l + 1)))).
+  = VBool (existsb (fun k => holds (bind x (VInt (range_item l k)) en) body) (zseq (wrap64 (h - l + 1)))).
 Proof.
-  intros en q x lo hi body l h Hl Hh [Hn Hm]. cbn [eval]. rewrite Hl, Hh. cbn [range_items].
+  intros en q x lo hi body l h Hl Hh Hn. cbn [eval]. rewrite Hl, Hh. cbn [range_items].
   replace (0 <? wrap64 (h - l + 1)) with true by (symmetry; apply Z.ltb_lt; exact Hn).
-  replace (max_iter <? wrap64 (h - l + 1)) with false by (symmetry; apply Z.ltb_ge; exact Hm).
   rewrite quantified_any. f_equal. rewrite existsb_map. reflexivity.
 Qed.
 Lemma for_range_all : forall en q x lo hi body l h,
   eval en lo = VInt l -> eval en hi = VInt h ->
-  0 < wrap64 (h - l + 1) <= max_iter ->
+  0 < wrap64 (h - l + 1) ->
   eval en (EForRange QAll q x lo hi body)
-  = VBool (forallb (fun k => holds (bind x (VInt (wrap64 (l + k))) en) body) (zseq (wrap64 (h - l + 1)))).
+  = VBool (forallb (fun k => holds (bind x (VInt (range_item l k)) en) body) (zseq (wrap64 (h - l + 1)))).
 Proof.
-  intros en q x lo hi body l h Hl Hh [Hn Hm]. cbn [eval]. rewrite Hl, Hh. cbn [range_items].
+  intros en q x lo hi body l h Hl Hh Hn. cbn [eval]. rewrite Hl, Hh. cbn [range_items].
   replace (0 <? wrap64 (h - l + 1)) with true by (symmetry; apply Z.ltb_lt; exact Hn).
-  replace (max_iter <? wrap64 (h - l + 1)) with false by (symmetry; apply Z.ltb_ge; exact Hm).
   rewrite quantified_all. f_equal.
   induction (zseq (wrap64 (h - l + 1))) as [|i t IH]; [reflexivity|]. cbn [map forallb]. rewrite IH. reflexivity.
 Qed.
@@ -409,7 +414,7 @@ Proof.
   - (* EForRange *) intros qk q IHq x lo IHl hi IHh body IHb en en' H. cbn [rename eval].
     rewrite (IHq _ _ H), (IHl _ _ H), (IHh _ _ H).
     destruct (range_items (eval en lo) (eval en hi)) as [[l n]|]; [|reflexivity].
-    destruct (max_iter <? n); [reflexivity|]. f_equal. apply map_ext. intros k.
+    f_equal. apply map_ext. intros k.
     apply IHb. apply env_ren_bind. exact H.
   - (* EForTuple *) intros qk q IHq x items IHi body IHb en en' H. cbn [rename eval].
     rewrite (IHq _ _ H), (IHi _ _ H). f_equal. apply map_ext. intros v.
